@@ -418,6 +418,18 @@ Disconnect ==
   /\ phase' = [p \in Party |-> "sync0"]
   /\ UNCHANGED <<disk, nadds, released, nfees, bad, opener>>
 
+\* API level only (~Fused): channel_reestablish processed on LIVE channel objects - the transport
+\* dropped, queues are lost, but nobody re-created the channels from disk.  lnd's peer always reloads
+\* (Disconnect above); the state machine's API allows this, and C06's release rule must hold here too
+\* (a party may hold an unrevoked local tip that is not durable yet).
+SoftDisconnect ==
+  /\ ~Fused /\ ndisc < MaxDisc
+  /\ \A p \in Party : phase[p] = "run"
+  /\ ndisc' = ndisc + 1
+  /\ net' = [p \in Party |-> <<>>]
+  /\ phase' = [p \in Party |-> "sync0"]
+  /\ UNCHANGED <<L, R, Lidx, Lhtlc, Ridx, Rhtlc, Lmod, Rmod, LC, RC, disk, nadds, released, nfees, bad, opener>>
+
 SendReest(p) ==
   /\ phase[p] = "sync0"
   /\ phase' = [phase EXCEPT ![p] = "sync1"]
@@ -471,6 +483,7 @@ Next ==
   \/ \E p \in Party, k \in {"settle", "fail"}, id \in 0..(2*MaxAdds) : Resolve(p, k, id)
   \/ \E p \in Party : Sign(p) \/ Revoke(p) \/ RecvAdd(p) \/ RecvRes(p) \/ RecvSig(p) \/ RecvRev(p)
   \/ Disconnect
+  \/ SoftDisconnect
   \/ \E p \in Party : SendReest(p) \/ RecvReest(p)
   \/ \E p \in Party, r \in Rates : UpdateFee(p, r)
   \/ \E p \in Party : RecvFee(p)
